@@ -46,13 +46,35 @@ def build_harness(race=False):
     if os.path.exists(out):
         os.remove(out)
     env = dict(GOENV)
-    cmd = ["go", "build", "-tags", "verif", "-o", out]
-    if race:
-        env["CGO_ENABLED"] = "1"
-        cmd.insert(2, "-race")
-    cmd.append(".")
-    sh(cmd, cwd=src, env=env, timeout=600)
+    global HOOKS, HOOKS_ERROR
+    for tags in (["-tags", "verif"], []):
+        cmd = ["go", "build"] + tags + ["-o", out]
+        if race:
+            env["CGO_ENABLED"] = "1"
+            cmd.insert(2, "-race")
+        cmd.append(".")
+        try:
+            sh(cmd, cwd=src, env=env, timeout=600)
+            HOOKS = bool(tags)
+            return out
+        except BuildError as e:
+            # the library may no longer compile with its `verif` hooks (they touch unexported names); everything the
+            # verdicts need is observable through the exported API, so fall back to a build without the hooks
+            if not tags:
+                raise
+            HOOKS_ERROR = str(e)[-600:]
     return out
+
+
+HOOKS = True
+HOOKS_ERROR = ""
+
+
+def strip_names(line):
+    """without the hooks the names sets are not observable: drop them from whole-line comparisons"""
+    if HOOKS:
+        return line
+    return " ".join(t for t in line.split(" ") if not t.startswith("n=")).replace("&n=?", "")
 
 
 def build_lean(targets):
